@@ -54,15 +54,20 @@ SpendTx == <<F(4), F(2), C(1, 0)>> \o TxIn(0) \o <<C(2, 0)>> \o TxOut(22) \o TxO
 
 \* A name with a trailing digit is a further valid instance of the same wire command: headers2 / block2 / cmpctblock2
 \* carry block B2, whose parent B1 the node does not know unless the session announced it; getblocktxn1 / getblocktxn3
-\* index blocks with one / four transactions (getblocktxn: two).
+\* index blocks with one / four transactions (getblocktxn: two); cmpctblock3 is B1 with every transaction prefilled;
+\* txo1 / txo2 are two orphan transactions (unknown input) crafted so that their BIP152 short ids collide under the
+\* header and nonce of cmpctblock4, whose short id list holds exactly that id (the sender fixes the siphash key by
+\* choosing the nonce and is free to grind transactions: a birthday search over ~2^24 txids).
 AllCmds == <<"version", "verack", "addr", "inv", "getdata", "notfound", "getblocks", "getheaders", "headers", "headers2",
-             "tx", "block", "block2", "cmpctblock", "cmpctblock2", "getblocktxn", "getblocktxn1", "getblocktxn3", "blocktxn",
+             "tx", "txo1", "txo2", "block", "block2", "cmpctblock", "cmpctblock2", "cmpctblock3", "cmpctblock4", "getblocktxn", "getblocktxn1", "getblocktxn3", "blocktxn",
              "ping", "pong", "feefilter", "sendcmpct",
              "sendheaders", "getaddr", "getmp", "getmpdone", "xauth", "authack", "filterload", "unknown", "frame">>
 CmdSet == {AllCmds[i] : i \in 1..Len(AllCmds)}
-Wire(c) == CASE c = "headers2" -> "headers" [] c = "block2" -> "block" [] c = "cmpctblock2" -> "cmpctblock"
+Wire(c) == CASE c = "headers2" -> "headers" [] c = "block2" -> "block" [] c \in {"cmpctblock2", "cmpctblock3", "cmpctblock4"} -> "cmpctblock"
+             [] c \in {"txo1", "txo2"} -> "tx"
              [] c \in {"getblocktxn1", "getblocktxn3"} -> "getblocktxn" [] OTHER -> c
 Orphans == {"headers2", "block2", "cmpctblock2"}
+ContextOnly == {"txo2", "cmpctblock4"}   \* same grammar as txo1 / cmpctblock: only the valid instance is of interest
 
 Grammar(c) ==
   CASE c = "version" -> <<F(4), F(8), F(8), F(26), F(26), F(8)>> \o LB(15) \o <<F(4), F(1)>>
@@ -75,6 +80,9 @@ Grammar(c) ==
     [] c = "tx" -> SpendTx
     [] c = "block" -> <<F(80), C(2, 0)>> \o CoinbaseTx \o SpendTx
     [] c = "cmpctblock" -> <<F(80), F(8), C(1, 6), F(6), C(1, 0), V(0, 2)>> \o CoinbaseTx
+    [] c = "cmpctblock4" -> <<F(80), F(8), C(1, 6), F(6), C(1, 0), V(0, 2)>> \o CoinbaseTx
+    [] c = "cmpctblock3" -> <<F(80), F(8), C(0, 6), C(2, 0), V(0, 2)>> \o CoinbaseTx \o <<V(0, 2)>> \o SpendTx
+    [] c \in {"txo1", "txo2"} -> <<F(4), C(1, 0)>> \o TxIn(0) \o <<C(1, 0)>> \o TxOut(22) \o <<F(4)>>
     [] c = "headers2" -> <<C(1, 81), F(81)>>
     [] c = "block2" -> <<F(80), C(1, 0)>> \o CoinbaseTx
     [] c = "cmpctblock2" -> <<F(80), F(8), C(0, 6), C(1, 0), V(0, 1)>> \o CoinbaseTx
@@ -92,7 +100,7 @@ Grammar(c) ==
 CntKinds == {"cnt-1", "cnt+1", "cntfd", "cntfe", "cntffmax", "cntffbig", "cntneg", "cntwrap"}
 VecKinds == {"vec+1", "vec-1"}        \* the vector itself one element longer (the last one repeated) / shorter, count adjusted
 LenKinds == {"lenover1", "lenfd", "lenfe", "lenff"}
-ValKinds == {"val+1", "val-1", "valfd", "valfe", "valff"}
+ValKinds == {"val+1", "val+2", "val-1", "valfd", "valfe", "valff"}
 FrameKinds == {"badmagic", "badsum", "oversize", "encflag", "encflag0", "lenover1", "cmdfull"}
 
 Cls(c, k, f) == [cmd |-> c, k |-> k, f |-> f]
@@ -100,6 +108,7 @@ Idx(g, kinds) == {i \in 1..Len(g) : g[i].k \in kinds}
 
 Classes(c) ==
   IF c = "frame" THEN {Cls(c, k, 0) : k \in FrameKinds}
+  ELSE IF c \in ContextOnly THEN {Cls(c, "valid", 0)}
   ELSE LET g == Grammar(c) n == Len(g) IN
        {Cls(c, "valid", 0), Cls(c, "trail", 0)}
        \cup (IF n > 0 THEN {Cls(c, "empty", 0)} ELSE {})
@@ -126,12 +135,13 @@ VARIABLES alive,   \* the connection is not (being) closed
           h1,      \* header of B1: "no" | "b2g" (BlocksToGet) | "got" (ReceivedBlocks)
           h2,      \* header of B2 is in BlocksToGet
           mp,      \* tx1 is in the mempool
+          o1, o2,  \* the orphan transactions txo1 / txo2 wait in the pool of rejected transactions (TransactionsRejected)
           npre, npost,
           held,    \* mutexes held after the last Recv returned
           order,   \* FALSE once MutexRcv was taken while c.Mutex was held
           out      \* outcome of the last Recv
 
-vars == <<alive, ver, score, cmpct, auth, addrd, ahr, bip, h1, h2, mp, npre, npost, held, order, out>>
+vars == <<alive, ver, score, cmpct, auth, addrd, ahr, bip, h1, h2, mp, o1, o2, npre, npost, held, order, out>>
 
 Locks == {"c", "net", "rcv", "tx", "last", "cnt", "idx", "peers", "cfg", "friends", "extip", "cblk", "cache"}
 Outcomes == {"ok", "ignored", "penalised", "disconnected"}
@@ -211,6 +221,7 @@ DefectPaths(c) ==
   \cup (IF c = "inv" /\ "InvCountWrap" \in Defects THEN {P(<<"+c", "-c", "!">>, "panic")} ELSE {})          \* invs.go: of+36*cnt wraps
   \cup (IF c = "block" /\ "BlockTxCount" \in Defects THEN {P(<<"+rcv", "+c", "-c", "!">>, "panic")} ELSE {}) \* data.go: PostCheckBlock panics under MutexRcv.Lock() without defer
   \cup (IF c = "cmpctblock" /\ "CmpctSameSid" \in Defects THEN {P(<<"~rcv", "+c", "-c", "+tx", ".">>, "ok")} ELSE {}) \* cblk.go: return with TxMutex held
+  \cup (IF c = "cmpctblock" /\ "CmpctPrefilledIdx" \in Defects THEN {P(<<"~rcv", "+c", "-c", "!">>, "panic")} ELSE {}) \* cblk.go: idx range-checked before "+= exp"
   \cup (IF c = "cmpctblock" /\ "CmpctTxSize" \in Defects THEN {P(<<"~rcv", "+c", "-c", "!">>, "panic")} ELSE {})
   \cup (IF c = "getblocktxn" /\ "GetBlockTxnIdx" \in Defects THEN {P(<<"+cblk", "-cblk", "!">>, "panic")} ELSE {})
   \cup (IF c = "blocktxn" /\ "BlockTxnMissing" \in Defects THEN {P(<<"~rcv", "+c", "-c", "!">>, "panic")} ELSE {})
@@ -222,10 +233,10 @@ Teardown == IF "TeardownLockOrder" \in Defects THEN <<"+c", "+rcv", "-rcv", "-c"
 \* ------------------------------------------------------------------ session
 Init ==
   /\ alive = TRUE /\ ver = FALSE /\ score = 0 /\ cmpct = 0 /\ auth = "no" /\ addrd = FALSE /\ ahr = FALSE
-  /\ bip = FALSE /\ h1 = "no" /\ h2 = FALSE /\ mp = FALSE /\ npre = 0 /\ npost = 0
+  /\ bip = FALSE /\ h1 = "no" /\ h2 = FALSE /\ mp = FALSE /\ o1 = FALSE /\ o2 = FALSE /\ npre = 0 /\ npost = 0
   /\ held = {} /\ order = TRUE /\ out = "ok"
 
-Same == UNCHANGED <<ver, cmpct, auth, addrd, ahr, bip, h1, h2, mp>>
+Same == UNCHANGED <<ver, cmpct, auth, addrd, ahr, bip, h1, h2, mp, o1, o2>>
 
 \* applies a path: locks, outcome, score. pen = points added when the outcome is "penalised"
 Apply(p, pen) ==
@@ -276,7 +287,7 @@ RecvValid(x) ==
   /\ Count(x)
   /\ LET c == x.cmd IN
      CASE c \in Orphans /\ h1 = "no" ->        \* the parent of B2 is unknown: the header does not connect (PH_STATUS_ERROR)
-            /\ UNCHANGED <<ver, cmpct, auth, addrd, bip, h1, h2, mp>>
+            /\ UNCHANGED <<ver, cmpct, auth, addrd, bip, h1, h2, mp, o1, o2>>
             /\ ahr' = (IF c = "headers2" THEN TRUE ELSE IF c = "cmpctblock2" THEN FALSE ELSE ahr)
             /\ IF c = "block2" THEN Apply(P(<<"+rcv", "+c", "-c", "+idx", "-idx", "-rcv">>, "ok"), 0)
                ELSE IF c = "headers2" THEN Apply(P(<<"+c", "-c", "~rcv", "~idx">> \o Ban, "penalised"), 50)
@@ -284,34 +295,50 @@ RecvValid(x) ==
        [] c \in Orphans /\ h1 # "no" ->        \* B2 connects; what it does to the download bookkeeping is not modelled
             /\ Same
             /\ \E p \in ErrExits(Wire(c)) \cup {P(WF(Wire(c)), "ok")} : \E pen \in PenSet : Apply(p, pen)
-       [] c = "version" -> /\ ver' = TRUE /\ UNCHANGED <<cmpct, auth, addrd, ahr, bip, h1, h2, mp>>
+       [] c = "version" -> /\ ver' = TRUE /\ UNCHANGED <<cmpct, auth, addrd, ahr, bip, h1, h2, mp, o1, o2>>
                            /\ Apply(P(WF(c), "ok"), 0)
-       [] c = "sendcmpct" -> /\ cmpct' = (IF cmpct < 2 THEN 2 ELSE cmpct) /\ UNCHANGED <<ver, auth, addrd, ahr, bip, h1, h2, mp>>
+       [] c = "sendcmpct" -> /\ cmpct' = (IF cmpct < 2 THEN 2 ELSE cmpct) /\ UNCHANGED <<ver, auth, addrd, ahr, bip, h1, h2, mp, o1, o2>>
                              /\ Apply(P(WF(c), "ok"), 0)
-       [] c = "getaddr" -> /\ addrd' = TRUE /\ UNCHANGED <<ver, cmpct, auth, ahr, bip, h1, h2, mp>>
+       [] c = "getaddr" -> /\ addrd' = TRUE /\ UNCHANGED <<ver, cmpct, auth, ahr, bip, h1, h2, mp, o1, o2>>
                            /\ IF addrd THEN Apply(P(<<"+c", "-c">> \o Ban, "penalised"), 50) ELSE Apply(P(WF(c), "ok"), 0)
-       [] c = "xauth" -> /\ UNCHANGED <<ver, cmpct, addrd, ahr, bip, h1, h2, mp>>
+       [] c = "xauth" -> /\ UNCHANGED <<ver, cmpct, addrd, ahr, bip, h1, h2, mp, o1, o2>>
                          /\ IF auth # "no" THEN auth' = auth /\ Apply(P(Ban, "disconnected"), 0)      \* one auth message per connection
                             ELSE auth' = "ok" /\ Apply(P(WF(c), "ok"), 0)
        [] c = "authack" -> /\ Same /\ Apply(P(<<"+c", "-c">>, "disconnected"), 0)                      \* unsigned authack ends Run()
        [] c = "filterload" -> /\ Same /\ Apply(P(Ban, "disconnected"), 0)
-       [] c = "inv" -> /\ ahr' = FALSE /\ UNCHANGED <<ver, cmpct, auth, addrd, bip, h1, h2, mp>>   \* unknown block: ReceiveHeadersNow
+       [] c = "inv" -> /\ ahr' = FALSE /\ UNCHANGED <<ver, cmpct, auth, addrd, bip, h1, h2, mp, o1, o2>>   \* unknown block: ReceiveHeadersNow
                        /\ Apply(P(WF(c), "ok"), 0)
-       [] c = "tx" -> /\ mp' = TRUE /\ UNCHANGED <<ver, cmpct, auth, addrd, ahr, bip, h1, h2>>
+       [] c = "tx" -> /\ mp' = TRUE /\ UNCHANGED <<ver, cmpct, auth, addrd, ahr, bip, h1, h2, o1, o2>>
                       /\ Apply(P(WF(c), "ok"), 0)
-       [] c = "headers" -> /\ UNCHANGED <<ver, cmpct, auth, addrd, bip, mp>>
+       [] c = "headers" -> /\ UNCHANGED <<ver, cmpct, auth, addrd, bip, mp, o1, o2>>
                            /\ h1' = (IF h1 = "no" THEN "b2g" ELSE h1) /\ h2' = TRUE
                            /\ ahr' = (IF h1 # "no" /\ h2 THEN TRUE ELSE ahr)       \* no new header: AllHeadersReceived
                            /\ Apply(P(WF(c), "ok"), 0)
-       [] c = "block" -> /\ UNCHANGED <<ver, cmpct, auth, addrd, ahr, h2, mp>>
+       [] c = "block" -> /\ UNCHANGED <<ver, cmpct, auth, addrd, ahr, h2, mp, o1, o2>>
                          /\ h1' = "got" /\ bip' = FALSE          \* netBlockReceived drops the entry of GetBlockInProgress
                          /\ Apply(P(WF(c), "ok"), 0)
-       [] c = "cmpctblock" -> /\ UNCHANGED <<ver, cmpct, auth, addrd, ahr, h2, mp>>
+       [] c = "cmpctblock" -> /\ UNCHANGED <<ver, cmpct, auth, addrd, ahr, h2, mp, o1, o2>>
                               /\ IF h1 = "got" THEN h1' = h1 /\ bip' = bip
                                  ELSE IF mp /\ cmpct = 2 THEN h1' = "got" /\ bip' = bip   \* every transaction found by its (wtxid) short id: complete
                                  ELSE h1' = "b2g" /\ bip' = TRUE               \* getblocktxn sent, collector waits
                               /\ Apply(P(WF(c), "ok"), 0)
-       [] c = "blocktxn" -> /\ UNCHANGED <<ver, cmpct, auth, addrd, ahr, h2, mp>>
+       [] c \in {"txo1", "txo2"} ->             \* input unknown: TX_REJECTED_NO_TXOU, kept while it waits for the input
+            /\ UNCHANGED <<ver, cmpct, auth, addrd, ahr, bip, h1, h2, mp>>
+            /\ o1' = (o1 \/ c = "txo1") /\ o2' = (o2 \/ c = "txo2")
+            /\ Apply(P(WF("tx") \o Snd, "ok"), 0)
+       [] c = "cmpctblock3" ->                  \* every transaction prefilled: the block is complete at once
+            /\ UNCHANGED <<ver, cmpct, auth, addrd, ahr, bip, h2, mp, o1, o2>>
+            /\ h1' = "got"
+            /\ Apply(P(WF("cmpctblock"), "ok"), 0)
+       [] c = "cmpctblock4" ->
+            /\ UNCHANGED <<ver, cmpct, auth, addrd, ahr, h2, mp, o1, o2>>
+            /\ h1' = (IF h1 = "no" THEN "b2g" ELSE h1)
+            /\ bip' = (IF h1 # "got" /\ ~o1 /\ ~o2 THEN TRUE ELSE bip)      \* nothing matches the short id: getblocktxn
+            /\ IF h1 # "got" /\ o1 /\ o2          \* both orphans match the one short id: "Same short ID - abort"
+               THEN IF "CmpctSameSid" \in Defects THEN Apply(P(<<"~rcv", "+c", "-c", "+tx", ".">>, "ok"), 0)
+                    ELSE Apply(P(<<"~rcv", "+c", "-c", "+tx", "-tx">>, "ok"), 0)
+               ELSE Apply(P(WF("cmpctblock"), "ok"), 0)    \* one orphan matches: assembled, merkle root differs, dropped
+       [] c = "blocktxn" -> /\ UNCHANGED <<ver, cmpct, auth, addrd, ahr, h2, mp, o1, o2>>
                             /\ IF bip THEN bip' = FALSE /\ h1' = (IF h1 = "got" THEN h1 ELSE "got") /\ Apply(P(WF(c), "ok"), 0)
                                ELSE bip' = bip /\ h1' = h1 /\ Apply(P(<<"~rcv", "+c", "-c">> \o Ban, "penalised"), 100)
        [] c = "getmp" -> /\ Same /\ (IF auth = "ok" THEN Apply(P(WF(c), "ok"), 0) ELSE Apply(P(<< >>, "ignored"), 0))
@@ -323,7 +350,7 @@ RecvValid(x) ==
 \*     change as for the valid payload; the model keeps the state and the replay driver tolerates either.
 RecvMalformed(x) ==
   /\ x.k # "valid" /\ x.cmd # "frame" /\ (ver \/ x.cmd = "version") /\ ~(ver /\ x.cmd = "version")
-  /\ Count(x) /\ UNCHANGED <<cmpct, auth, addrd, ahr, bip, h1, h2, mp>>
+  /\ Count(x) /\ UNCHANGED <<cmpct, auth, addrd, ahr, bip, h1, h2, mp, o1, o2>>
   /\ \E p \in ErrExits(Wire(x.cmd)) \cup DefectPaths(Wire(x.cmd)) \cup {P(WF(Wire(x.cmd)), "ok")} :
         /\ \E pen \in PenSet : Apply(p, pen)
         /\ ver' = (IF x.cmd = "version" /\ p.out = "ok" THEN TRUE ELSE ver)
@@ -340,11 +367,11 @@ Spec == Init /\ [][Next]_vars
 TypeOK ==
   /\ alive \in BOOLEAN /\ ver \in BOOLEAN /\ score \in 0..(BanScore + 200) /\ cmpct \in 0..2
   /\ auth \in {"no", "got", "ok"} /\ addrd \in BOOLEAN /\ ahr \in BOOLEAN /\ bip \in BOOLEAN
-  /\ h1 \in {"no", "b2g", "got"} /\ h2 \in BOOLEAN /\ mp \in BOOLEAN
+  /\ h1 \in {"no", "b2g", "got"} /\ h2 \in BOOLEAN /\ mp \in BOOLEAN /\ o1 \in BOOLEAN /\ o2 \in BOOLEAN
   /\ held \subseteq Locks /\ order \in BOOLEAN /\ out \in Outcomes \cup {"panic"}
 
 HandlerReturnsClean == held = {} /\ out \in Outcomes
 LockOrder == order
 BannedIsDead == score >= BanScore => ~alive
-CollectorNeedsHeader == bip => h1 = "b2g"
+CollectorNeedsHeader == bip => h1 # "no"
 =============================================================================
